@@ -19,7 +19,7 @@ def obligations(tier):
 META = dict(
     level="model_checking",
     bounds={"quick": "all live head sequences of <= 3 heads over a 17-symbol structural alphabet (counts/lengths 0..2, every reserved-byte class, every argument-width form) + leaf-variety and named special shapes; every integer/float/tag argument byte and payload byte symbolic; DEBUG and NDEBUG builds",
-            "thorough": "same with <= 4 heads"},
+            "thorough": "same with <= 4 heads (all of S(3), every accepted 4-head sequence, every 4th rejected and every 16th still-open 4-head sequence)"},
     assumptions=["allocations succeed (C06 owns refusal)", "default nesting limit (C19 owns the limit)", "head bytes, counts and lengths are concrete per skeleton (control); the C08 lemma shows each immediate behaves as its 1-byte form",
                  "expected outcomes come from lib/skeleton.py's reference decoder (RFC 8949 + profile), not from libcbor"],
     outside=["inputs with more heads than the bound", "byte-exhaustive symbolic input to cbor_load (does not finish even for 1 byte)"],
